@@ -7,7 +7,7 @@ import warnings
 import core
 
 THEOREMS = ["InfOCF.C10_parse_iff", "InfOCF.parseFm_sound", "InfOCF.parseFm_complete", "InfOCF.D_unique", "InfOCF.C10_precedence",
-            "InfOCF.C10_reject_iff", "InfOCF.C10_print_parse", "InfOCF.C10_eval_and_or"]
+            "InfOCF.C10_reject_iff", "InfOCF.C10_print_parse", "InfOCF.C10_eval_and_or", "InfOCF.C10_text_roundtrip", "InfOCF.lex_unlex"]
 RULE = ("generated texts: formulas of nesting depth 0-5 printed with minimal / redundant parentheses, random blanks, tabs, // and /* */ "
         "comments; belief-base files (signature, 1-2 blocks, 0-6 conditionals, blank lines, comments) and query lists; about 35% are "
         "mutated (token deleted / duplicated / swapped, illegal character, trailing text, missing separator, early end, unterminated "
@@ -221,6 +221,12 @@ def compare(case, impl, resp):
         got = table_of_pysmt(parse_formula(case["text"]), full) if full != atoms else impl["table"]
         if got != table_of_pf(pf, full):
             return fail("formula: parsed formula has a different truth table than the documented reading", impl["fnode"], parts[1])
+        if case.get("expect") is not None:
+            exp = tuple_of(case["expect"])
+            full = sorted(set(atoms) | pf_atoms(exp, set()))
+            got = table_of_pysmt(parse_formula(case["text"]), full) if full != atoms else impl["table"]
+            if got != table_of_pf(exp, full):
+                return fail("formula: the text printed for a formula is read as a different formula", impl["fnode"], case["expect"])
         return None
     sig, name, conds = parts[1].split(",") if parts[1] else [], parts[2], parts[3:]
     conds = [c for c in conds if c]
@@ -250,6 +256,11 @@ def compare(case, impl, resp):
         if item["reparse"] is not True:
             return fail(f"{case['kind']}: text representation does not re-parse to an equivalent conditional", [item["text"], item["reparse"]], True)
     return None
+
+
+def tuple_of(f):
+    """formula from JSON (lists) back to tuples"""
+    return tuple(tuple_of(x) if isinstance(x, (list, tuple)) else x for x in f)
 
 
 def recheck(case):
@@ -324,6 +335,25 @@ def run(ctx):
         if mutated:
             text = mutate(rng, text)
         cases.append({"kind": "formula", "text": text, "depth": f_depth(f), "mutated": mutated})
+    # texts written by the Lean printer `text` (the function C10_text_roundtrip speaks about): the real parser must accept
+    # them with the meaning of the printed formula
+    ATOM_NAMES = [x for x in NAMES if x not in ("Top", "Bottom")] + ["Z9", "k_-", "conditional", "signature1", "TopX"]
+    lt_cases, lt_lines = [], []
+    for _ in range(n_f // 6):
+        names = rng.sample(ATOM_NAMES, rng.randint(1, 5))
+        f = gen_f(rng, rng.randint(0, 5), names)
+
+        def pre(g):
+            if g[0] == "v":
+                return [f"a{names.index(g[1])}"]
+            if g[0] in ("T", "F"):
+                return [g[0]]
+            return [g[0]] + [t for h in g[1:] for t in pre(h)]
+        lt_lines.append(f"ftext {len(names)} " + " ".join(names) + " " + " ".join(pre(f)))
+        lt_cases.append({"kind": "formula", "depth": f_depth(f), "mutated": False, "origin": "lean-printer", "expect": f})
+    for c, t in zip(lt_cases, core.driver_batch(lt_lines)):
+        c["text"] = t
+        cases.append(c)
     for _ in range(n_b):
         text = gen_base_text(rng, noise=rng.choice([0, 1]))
         mutated = rng.random() < 0.35
@@ -348,6 +378,8 @@ def run(ctx):
         ctx.bump(f"{c['kind']}:{'accepted' if resp != 'reject' else 'rejected'}")
         if c.get("mutated"):
             ctx.bump(f"{c['kind']}:mutated")
+        if c.get("origin"):
+            ctx.bump(f"{c['kind']}:origin={c['origin']}")
         if not impl["ok"]:
             ctx.bump("error:" + impl["err"].split(":")[0])
         if (c.get("depth", 0) >= 2 or c.get("mutated")) and c["text"] not in seen:
